@@ -523,6 +523,8 @@ def run(ctx):
              "selects inside a table-list get the list-nolabel appearance", w2j.loc(loop))
     r6.check(ctx.consts.get("pyxform.constants", "LIST_NOLABEL") == "list-nolabel" and ctx.consts.get("pyxform.constants", "TABLE_LIST") == "table-list"
              and ctx.consts.get("pyxform.constants", "FIELD_LIST") == "field-list", "table-list:constants", "appearance keywords are spelled as documented", "pyxform/constants.py")
+    from ..rowloop import type_branch_obligations
+    type_branch_obligations(ctx, r6, "C04.R6")
     rules.append(r6)
     from .c02 import tree_agreement_rule
     rules.append(tree_agreement_rule(ctx, "C04", "C04.R7"))
